@@ -176,7 +176,15 @@ fn sanitize_struct(s: impl AsRef<str>) -> Ident {
 }
 
 pub fn is_restricted(s: &str) -> bool {
-    ["type", "use", "ref", "self", "match", "final"].contains(&s)
+    // every word that is not accepted as an identifier by rustc / syn
+    [
+        "abstract", "as", "async", "await", "become", "box", "break", "const", "continue", "crate", "do", "dyn",
+        "else", "enum", "extern", "false", "final", "fn", "for", "if", "impl", "in", "let", "loop", "macro",
+        "match", "mod", "move", "mut", "override", "priv", "pub", "ref", "return", "self", "static", "struct",
+        "super", "trait", "true", "try", "type", "typeof", "unsafe", "unsized", "use", "virtual", "where",
+        "while", "yield",
+    ]
+    .contains(&s)
 }
 
 fn assert_valid_ident(s: &str, original: &str) {
